@@ -37,7 +37,7 @@ BASE = {
     "NKeys": "2", "Paths": "<-McPaths", "Par": "<-McPar", "PathSeq": "<-McPathSeq", "BNodes": "<-McBNodes",
     "OpAlpha": '{"s1","s2","d"}', "MaxOps": "2", "Tree": '"flat"', "MaxBatches": "3", "MaxPre": "2",
     "HasLL": "TRUE", "LLInit": "TRUE", "CachePersisted": "FALSE", "MaxSnaps": "0", "MaxErrs": "0",
-    "MaxReopens": "0", "MaxPokes": "1", "Devs": "{}", "SimLen": "14", "InitKeys": "{}",
+    "MaxReopens": "0", "MaxPokes": "1", "Devs": "{}", "SimLen": "14", "InitKeys": "{}", "InitKids": "{}",
 }
 
 PATHS = {"flat": [""], "a": ["", "a"], "ab": ["", "a", "b"], "aa": ["", "a", "a/a"], "aab": ["", "a", "a/a", "b"]}
@@ -61,7 +61,7 @@ def dims(mode, tree="flat", nkeys=2, maxpre=2, **kw):
 # dimensions under which the store's own policy takes *partial* compactions: values of very different sizes
 # (segments in different levels), small level parameters, and a fragmentation threshold that never forces a full one
 def partial(**kw):
-    d = dict(compaction="allow", levelMaxSegs=2, levelMult=2, compactionPct=1.0, concr="sized")
+    d = dict(compaction="allow", levelMaxSegs=2, levelMult=2, compactionPct=1.0, concr="sized", diskCheck=True)
     d.update(kw)
     return d
 
@@ -137,10 +137,10 @@ def plan(prop, tier):
         P["sim"] = [("c04_walk", C(MaxBatches=6, MaxPokes=2, SimLen=24, MaxReopens=2, OpAlpha='{"s1","s2","se","d"}'), 100 if q else 600),
                     ("c04_walk_kids", C(Tree='"aa"', NKeys=1, OpAlpha='{"s1","se","d"}', MaxOps=1, MaxBatches=6, MaxPokes=2, SimLen=24, MaxReopens=2), 80 if q else 500)]
         P["edges"] = []
-        P["sim"].append(("c04_walk_pre", C(MaxBatches=8, MaxPokes=1, SimLen=34, MaxReopens=2, OpAlpha='{"s1","s2","d"}', InitKeys="{1}"), 100 if q else 600))
-        P["dims"] = {"c04_walk": [dims("store"), dims("store", compaction="force"), dims("store", compaction="allow", levelMaxSegs=2, levelMult=2), dims("store", noSync=True, deferredSort=True),
+        P["sim"].append(("c04_walk_pre", C(NKeys=3, MaxOps=1, MaxBatches=8, MaxPokes=1, SimLen=34, MaxReopens=2, OpAlpha='{"s1","s2","d"}', InitKeys="{1}"), 200 if q else 1200))
+        P["dims"] = {"c04_walk": [dims("store", diskCheck=True), dims("store", compaction="force", diskCheck=True), dims("store", compaction="allow", levelMaxSegs=2, levelMult=2), dims("store", noSync=True, deferredSort=True),
                                   dims("store", **partial())],
-                     "c04_walk_pre": [dims("store", preload=[1], **partial(levelMaxSegs=1)), dims("store", preload=[1], **partial())],
+                     "c04_walk_pre": [dims("store", nkeys=3, preload=[1], **partial(levelMaxSegs=1)), dims("store", nkeys=3, preload=[1], **partial())],
                      "c04_walk_kids": [dims("store", "aa", 1), dims("store", "aa", 1, compaction="force"), dims("store", "aa", 1, compaction="allow", levelMaxSegs=1, levelMult=2),
                                        dims("store", "aa", 1, **partial())]}
         P["relevant"] = r"^reopen|^lower|^conformance|^gauges0\.lower"
@@ -186,7 +186,12 @@ def plan(prop, tier):
         P["dims"]["c11_lead"] = [dims("store", "a", 1), dims("store", "a", 1, compaction="force")]
         P["goals"] = [("c11_goal_recreate", C(Tree='"a"', NKeys=1, OpAlpha='{"s1"}', MaxOps=1, MaxBatches=3, MaxPokes=0, MaxReopens=1), ["GoalRecreatedAfterReopen"])]
         P["dims"]["c11_goal_recreate"] = [dims("store", "a", 1), dims("store", "a", 1, compaction="force")]
-        P["relevant"] = r"^(snapshot|lower|reopen|heldsnap)\.(names|child)|^(snapshot|lower|reopen|heldsnap)\.(get|iter)#child|^conformance"
+        # behaviours that start with child collections restored from the store (restoreCollection), then delete / recreate / nest
+        P["sim"].append(("c11_walk_pre", C(Tree='"aa"', NKeys=1, OpAlpha='{"s1","s2","d"}', MaxOps=1, MaxBatches=6, MaxPokes=1, SimLen=20, MaxReopens=1, InitKids='{"a","a/a"}'), 100 if q else 700))
+        P["dims"]["c11_walk_pre"] = [dims("store", "aa", 1, preloadKids=["a", "a/a"]), dims("store", "aa", 1, preloadKids=["a", "a/a"], compaction="force")]
+        P["sim"].append(("c11_walk_pre_ab", C(Tree='"ab"', NKeys=1, OpAlpha='{"s1","d"}', MaxOps=1, MaxBatches=6, MaxPokes=1, SimLen=20, MaxReopens=1, InitKids='{"a","b"}'), 60 if q else 400))
+        P["dims"]["c11_walk_pre_ab"] = [dims("store", "ab", 1, preloadKids=["a", "b"])]
+        P["relevant"] = r"^(snapshot|lower|reopen|heldsnap)\.(names|child)|^(snapshot|lower|reopen|heldsnap)\.(get|iter)#child|^conformance|^reopencopy"
         P["rule"] = ("behaviours over a tree of child names (create, write, child-only batches, delete, recreate, nested children); names and content of every child at every "
                      "nesting level read from collection snapshots, the store snapshot and after reopen; non-trivial = some child was deleted or recreated in the behaviour")
     elif prop == "C13":
